@@ -55,8 +55,12 @@ package lunarcontext
 // a memoryState whose context is the in-memory map (what NewMemoryState builds)
 //@ ghost func msValid(p *memoryState[int64]) bool = p != nil && typeis(p.contextMemory, *contextMemory) && cmOf(p) != nil
 // raw keys written by quota.storeCountIntoContext ("<key>_currentCount", "<key>_spilloverCount") never collide with counter keys
-//@ axiom[rawkey-c] forall(a, string, forall(s, string, forall(b, string, sprintf("%s_%s", a, s) != sprintf("%s // %s", b, "_counter"))))
-//@ axiom[rawkey-w] forall(a, string, forall(s, string, forall(b, string, sprintf("%s_%s", a, s) != sprintf("%s // %s", b, "_window_start"))))
+// (stated for the two suffix constants the code uses: the strings end in "Count", counter keys end in "_counter" / "_window_start";
+// quantified over an arbitrary suffix the statement would be false, e.g. a = "x // ", suffix "counter")
+//@ axiom[rawkey-cc-c] forall(a, string, forall(b, string, sprintf("%s_%s", a, "currentCount") != sprintf("%s // %s", b, "_counter")))
+//@ axiom[rawkey-cc-w] forall(a, string, forall(b, string, sprintf("%s_%s", a, "currentCount") != sprintf("%s // %s", b, "_window_start")))
+//@ axiom[rawkey-sc-c] forall(a, string, forall(b, string, sprintf("%s_%s", a, "spilloverCount") != sprintf("%s // %s", b, "_counter")))
+//@ axiom[rawkey-sc-w] forall(a, string, forall(b, string, sprintf("%s_%s", a, "spilloverCount") != sprintf("%s // %s", b, "_window_start")))
 
 // ---------------------------------------------------------------- string sets (concurrency quotas, C02)
 //@ ghost field memoryState.gIsSet gset[string]        // keys that hold a []string set
